@@ -6,6 +6,7 @@ CONSTANTS
     Publishers = {"p1"}
     MaxCollects = 1000000
     MaxRegOps = 1000000
+    FreeRunning = FALSE
 INVARIANTS
     TopicLevelIsMax
     EventStatesMin
